@@ -68,7 +68,7 @@ func (d *dateEval) eval(e ast.Expr) (bool, bool) {
 				switch d.class(a) {
 				case "A":
 					return d.env.aNil == (x.Op == token.EQL), true
-				case "B":
+				case "B", "BH":
 					return d.env.bNil == (x.Op == token.EQL), true
 				}
 			}
@@ -340,6 +340,10 @@ func c12Value(c *core.Ctx) {
 					}
 				case *ast.UnaryExpr:
 					return nil, false
+				case *ast.Ident:
+					if v, isVar := info.Uses[x].(*types.Var); isVar && !v.IsField() && v.Parent() != v.Pkg().Scope() {
+						return nil, false // a local flag: its value is what was assigned to it
+					}
 				}
 				if mentionsDate(e) {
 					v, ok := dev.eval(e)
@@ -446,47 +450,56 @@ func c12Order(c *core.Ctx) {
 		}
 	}
 	c.Ob("C12-R2", fd.Name()+"#wired", fd.Decl.Pos(), wired, "the order validator is not applied to RateDef.Values in RateDef's validation")
-	// the error return inside the loop
-	var loop ast.Stmt
+	// decided on the normalised view (index loops are range loops there, helpers are in place)
+	fd = p.Inlined(fd)
+	info = fd.Pkg.TypesInfo
+	var loop *ast.RangeStmt
 	for _, s := range fd.Decl.Body.List {
-		switch s.(type) {
-		case *ast.RangeStmt, *ast.ForStmt:
-			loop = s
+		if rs, ok := s.(*ast.RangeStmt); ok && rs.Value != nil {
+			loop = rs
 		}
 	}
 	if loop == nil {
-		c.Ob("C12-R2", fd.Name()+"#loop", fd.Decl.Pos(), false, "no loop found")
+		c.Ob("C12-R2", fd.Name()+"#loop", fd.Decl.Pos(), false, "NOT FOUND: no loop over the values found")
 		return
 	}
-	var errRet *ast.ReturnStmt
+	cur := core.VarOf(info, loop.Value)
+	hasErr := false
 	ast.Inspect(loop, func(n ast.Node) bool {
 		if r, ok := n.(*ast.ReturnStmt); ok && len(r.Results) == 1 && !core.IsNil(info, r.Results[0]) {
-			errRet = r
+			hasErr = true
 		}
 		return true
 	})
-	if errRet == nil {
+	if !hasErr || cur == nil {
 		c.Ob("C12-R2", fd.Name()+"#error-return", loop.Pos(), false, "the loop never returns an error")
 		return
 	}
-	// previous-date variable: a *cal.Date local assigned from <elem>.Since at the end of the loop body
+	// what is remembered from one entry to the next: a local declared outside the loop and
+	// assigned inside it from the element's Since (the previous start date) or from the
+	// element itself (then its Since is the previous start date)
 	var prev *types.Var
-	var cur *types.Var
+	holder := false
 	ldOrder := core.NewLocalDefs(info, fd.Decl.Body)
-	ast.Inspect(loop, func(n ast.Node) bool {
+	ast.Inspect(loop.Body, func(n ast.Node) bool {
 		as, ok := n.(*ast.AssignStmt)
-		if !ok || len(as.Lhs) != 1 || len(as.Rhs) != 1 {
+		if !ok || len(as.Lhs) != 1 || len(as.Rhs) != 1 || as.Tok != token.ASSIGN {
 			return true
 		}
-		rhs := ldOrder.Resolve(as.Rhs[0], 2) // `prev = since` with `since := v.Since`
-		if f := core.FieldOf(info, rhs); f != nil && f.Name() == "Since" && as.Tok == token.ASSIGN {
-			prev = core.VarOf(info, as.Lhs[0])
-			cur = core.RootVar(info, rhs)
+		lv := core.VarOf(info, as.Lhs[0])
+		if lv == nil || lv.IsField() || (loop.Pos() <= lv.Pos() && lv.Pos() <= loop.End()) {
+			return true
+		}
+		rhs := ast.Unparen(ldOrder.Resolve(as.Rhs[0], 2)) // `prev = since` with `since := v.Since`
+		if core.IsFieldOfVar(info, rhs, cur, "Since") {
+			prev, holder = lv, false
+		} else if core.VarOf(info, rhs) == cur {
+			prev, holder = lv, true
 		}
 		return true
 	})
-	if prev == nil || cur == nil {
-		c.Undecided("C12-R2", fd.Name()+"#prev", loop.Pos(), "cannot identify the variable holding the previous start date")
+	if prev == nil {
+		c.Undecided("C12-R2", fd.Name()+"#prev", loop.Pos(), "cannot identify the variable holding the previous entry or its start date")
 		return
 	}
 	class := func(e ast.Expr) string {
@@ -495,24 +508,44 @@ func c12Order(c *core.Ctx) {
 			e = ast.Unparen(st.X)
 		}
 		if se, ok := e.(*ast.SelectorExpr); ok && se.Sel.Name == "Date" {
-			if _, isField := info.Selections[se]; isField {
-				if core.FieldOf(info, se) != nil && core.FieldOf(info, se).Name() == "Date" {
-					e = ast.Unparen(se.X)
-				}
+			if f := core.FieldOf(info, se); f != nil && f.Name() == "Date" {
+				e = ast.Unparen(se.X)
 			}
 		}
-		if v := core.VarOf(info, e); v != nil && v != prev && !v.IsField() {
-			e = ast.Unparen(ldOrder.Resolve(e, 2)) // a local copy of the element's start date
+		if v := core.VarOf(info, e); v != nil && v != prev && v != cur && !v.IsField() {
+			e = ast.Unparen(ldOrder.Resolve(e, 2)) // a local copy of a start date
 		}
 		if core.IsFieldOfVar(info, e, cur, "Since") {
 			return "A"
+		}
+		if holder {
+			if core.IsFieldOfVar(info, e, prev, "Since") {
+				return "B"
+			}
+			if core.VarOf(info, e) == prev {
+				return "BH"
+			}
+			return ""
 		}
 		if core.VarOf(info, e) == prev {
 			return "B"
 		}
 		return ""
 	}
-	conds := enclosingConds(loop, errRet)
+	mentionsDate := func(e ast.Expr) bool {
+		found := false
+		ast.Inspect(e, func(n ast.Node) bool {
+			if x, ok := n.(ast.Expr); ok && class(x) != "" {
+				found = true
+			}
+			return true
+		})
+		return found
+	}
+	// One pass of the loop body is evaluated for an entry under each date case and every
+	// assignment of the conditions that do not concern dates (the entry's qualifiers): it
+	// reports an error, or goes on. Where strict descending order requires an error some
+	// assignment (the unqualified entry) must report one; where it does not, none may.
 	for _, t := range []struct {
 		name string
 		env  dateEnv
@@ -522,27 +555,102 @@ func c12Order(c *core.Ctx) {
 		{"cur<prev", dateEnv{aValid: true, bValid: true, ord: -1}, false},
 		{"cur=prev", dateEnv{aValid: true, bValid: true, ord: 0}, true},
 		{"cur>prev", dateEnv{aValid: true, bValid: true, ord: 1}, true},
+		{"cur-undated(nil)-after-dated", dateEnv{aNil: true, bValid: true}, false},
 	} {
-		ev := &dateEval{info: info, class: class, env: t.env}
-		val, ok := true, true
-		for _, cond := range conds {
-			v, o := ev.eval(cond)
-			if !o {
-				ok = false
-				break
-			}
-			val = val && v
-			if !val {
-				break
-			}
-		}
 		key := fd.Name() + "#order:" + t.name
-		if !ok {
-			c.Undecided("C12-R2", key, errRet.Pos(), ev.why)
-			continue
+		var free []string
+		known := map[string]bool{}
+		reported, undecided, deref := false, "", ""
+		for mask := 0; mask < 1<<uint(len(free)) || mask == 0; mask++ {
+			assign := map[string]bool{}
+			for i, k := range free {
+				assign[k] = mask&(1<<uint(i)) != 0
+			}
+			dev := &dateEval{info: info, class: class, env: t.env}
+			ev := &core.AbsEval{Info: info}
+			grew := false
+			ev.Atom = func(e ast.Expr) (any, bool) {
+				e = ast.Unparen(e)
+				if core.IsNil(info, e) {
+					return "nil", true
+				}
+				tv := info.TypeOf(e)
+				if tv == nil {
+					return nil, false
+				}
+				if b, ok := tv.Underlying().(*types.Basic); !ok || b.Info()&types.IsBoolean == 0 {
+					if types.Identical(tv, types.Universe.Lookup("error").Type()) {
+						if _, isCall := e.(*ast.CallExpr); isCall {
+							return "error", true
+						}
+					}
+					return nil, false
+				}
+				switch x := e.(type) {
+				case *ast.BinaryExpr:
+					if x.Op == token.LAND || x.Op == token.LOR {
+						return nil, false
+					}
+				case *ast.UnaryExpr:
+					return nil, false
+				case *ast.Ident:
+					if v, isVar := info.Uses[x].(*types.Var); isVar && !v.IsField() && v.Parent() != v.Pkg().Scope() {
+						return nil, false // a local flag: its value is what was assigned to it
+					}
+				}
+				if mentionsDate(e) {
+					v, ok := dev.eval(e)
+					if !ok {
+						undecided = dev.why
+						if undecided == "" {
+							undecided = "no model for sub-expression " + types.ExprString(e)
+						}
+						return nil, false
+					}
+					return v, true
+				}
+				k := types.ExprString(e)
+				if !known[k] {
+					known[k] = true
+					free = append(free, k)
+					grew = true
+				}
+				return assign[k], true
+			}
+			ev.Branch = func(b *ast.BranchStmt) ([]any, bool) {
+				if b.Tok == token.CONTINUE && b.Label == nil {
+					return []any{"skip"}, true
+				}
+				return nil, false
+			}
+			ret, reached, ok := ev.RunList(loop.Body.List)
+			if dev.deref != "" {
+				deref = dev.deref
+			}
+			if grew {
+				mask = -1
+				continue
+			}
+			if !ok {
+				if undecided == "" {
+					undecided = "the loop body could not be evaluated"
+				}
+				break
+			}
+			if reached && len(ret) == 1 && ret[0] == "error" {
+				reported = true
+			}
 		}
-		c.Ob("C12-R2", key, errRet.Pos(), val == t.want && ev.deref == "",
-			fmt.Sprintf("for %s the validator reports error=%v, strict descending order requires error=%v", t.name, val, t.want))
+		switch {
+		case undecided != "":
+			c.Undecided("C12-R2", key, loop.Pos(), undecided)
+		default:
+			msg := fmt.Sprintf("for %s the validator reports error=%v, strict descending order requires error=%v", t.name, reported, t.want)
+			if deref != "" {
+				msg = fmt.Sprintf("for %s the validator dereferences a nil start date (%s): a table with a dated value followed by an undated one panics instead of being validated", t.name, deref)
+			}
+			c.Ob("C12-R2", key, loop.Pos(), reported == t.want && deref == "", msg)
+		}
 	}
 }
 
